@@ -134,6 +134,21 @@ class Engine(object):
         return r
 
 
+def _engine_other(I, obj, name):
+    """any other attribute of the engine the session touches: recorded (the session's contract allows
+    none - everything but the two entry points above runs outside the engine's lock)"""
+    I.path.event('engine.other', name)
+
+    def call(I2, args, kw):
+        I2.path.event('engine.other.call', name)
+        return Opaque('object', 'engine.' + name + '()')
+    call._pyvc_model = True
+    return _pyvc().BoundMethod(obj, _drop_self(call))
+
+
+Engine._pyvc_dynamic = _engine_other
+
+
 class Response(object):
     """ResponseMessage built by the engine: write() appends its encoding (any bytes) to the
     stream and is assumed not to raise (C01/C02 cover the codec)."""
